@@ -83,6 +83,10 @@ def parseAnnotated (e : String) : Option (String × Nat × Nat) :=
 
 def parseStmt (t : String) : Option Stmt :=
   match t.splitOn ":" with
+  -- a function definition defines no variable; a call of a copying function defines its target as a copy of the
+  -- argument, a call of a function that writes to its input is refused (the input is immutable) and changes nothing
+  | ["G", _, _, _] => some (.assign "" .bad)
+  | ["C", y, _, x, mode, _] => some (.define false y (if mode == "r" then .copy x else .bad))
   | ["D", m, n, e] =>
     (match parseAnnotated e with
      | some (src, _, _) => some (.define (m == "1") n (.copy src))
@@ -105,13 +109,16 @@ def runC05 (fields : List String) (obs : String) : String × String × String :=
       -- believes it does; after a failed statement it may not): the session is judged up to the first one
       -- whose source holds something else
       let expects : List (Option (String × Nat × Nat)) := (body.splitOn ";;").map (fun t =>
-        match t.splitOn ":" with | ["D", _, _, e] => parseAnnotated e | _ => none)
+        match t.splitOn ":" with
+        | ["D", _, _, e] => parseAnnotated e
+        | ["C", _, _, x, "r", k] => some (x, if k == "s" then 0 else 1000, 1000)
+        | _ => none)
       let holds (ms : Store) (x : Option (String × Nat × Nat)) : Bool := match x with
         | none => true
         | some (src, r, c) => (match ms.lookup src with
           | some (cell, _) => (match ms.read cell with
             | some (.num _) => r == 0
-            | some (.mat r' c' _) => r == r' && c == c'
+            | some (.mat r' c' _) => r == 1000 || (r == r' && c == c')
             | _ => false)
           | none => true)
       let usable : Nat := (List.range stmts0.length).foldl (fun (acc : Nat × Store × Bool) i =>
@@ -128,8 +135,9 @@ def runC05 (fields : List String) (obs : String) : String × String × String :=
         match ss with
         | [] => (accM.reverse, accS.reverse, region, bad)
         | st :: rest =>
-          let r := exec ms st
-          let q := rexec rs st
+          let isFnDef := st == .assign "" .bad
+          let r := if isFnDef then (ms, .ok ()) else exec ms st
+          let q := if isFnDef then (rs, true) else rexec rs st
           let mt := (match r.2 with | .ok _ => "ok#" | .error _ => "err#") ++ snapModel r.1
           let stx := (if q.2 then "ok#" else "err#") ++ snapSpec q.1
           let o := os.headD ""
